@@ -10,10 +10,11 @@ const classes = `class E1 extends Exception {} class E2 extends E1 {} class E3 e
 `
 
 // One try inside a loop inside a function. Selectors (symbolic ints):
-//   $t: how the try body exits   0 fall through, 1 return 10, 2 break, 3 continue, 4 throw (class by $x)
-//   $c: how the E1 handler exits 0 fall through, 1 return 20, 2 break, 3 continue, 4 throw new E3
-//   $f: finally                  0 fall through, 1 return 30
-//   $x: thrown class             0 E1, 1 E2, 2 E3, 3 Exception, 4 Go-level error (1 % 0)
+//
+//	$t: how the try body exits   0 fall through, 1 return 10, 2 break, 3 continue, 4 throw (class by $x)
+//	$c: how the E1 handler exits 0 fall through, 1 return 20, 2 break, 3 continue, 4 throw new E3
+//	$f: finally                  0 fall through, 1 return 30
+//	$x: thrown class             0 E1, 1 E2, 2 E3, 3 Exception, 4 Go-level error (1 % 0)
 const tmpl1 = classes + `
 function f($t, $c, $f, $x) {
   for ($i = 0; $i < 2; $i++) {
@@ -228,5 +229,34 @@ func H_same_object() {
 		return
 	}
 	symx.AssertKnown(len(got) == 2 && got[0] == 1, "catch variable is the thrown object", true, "C05-catch-var-wrapper")
+	symx.Reach("end")
+}
+
+// H_catch_order: every thrown class x every ordered pair of catch clause types: the FIRST clause
+// (in source order) whose type is the object's class, an ancestor or an implemented interface wins.
+func H_catch_order() {
+	thrown := symx.Choose("thrown", 4)
+	c1, c2 := symx.Choose("clause1", 5), symx.Choose("clause2", 5)
+	names := []string{"E1", "E2", "E3", "Exception", "Throwable"}
+	// isA[thrown][type]
+	isA := [][]bool{
+		{true, false, false, true, true},  // E1
+		{true, true, false, true, true},   // E2 extends E1
+		{false, false, true, true, true},  // E3
+		{false, false, false, true, true}, // Exception
+	}
+	src := classes + "try { try { throw new " + names[thrown] + "(\"x\"); } catch (" + names[c1] + " $e) { mark(1); } catch (" + names[c2] + " $e) { mark(2); } } catch (Throwable $e) { mark(3); }\nmark(9);"
+	got, ok := runTrace(src)
+	symx.Assert(ok, "catch-order: runs to completion")
+	if !ok {
+		return
+	}
+	want := 3
+	if isA[thrown][c1] {
+		want = 1
+	} else if isA[thrown][c2] {
+		want = 2
+	}
+	symx.Assert(len(got) == 2 && got[0] == want && got[1] == 9, "first matching catch clause in source order handles the throwable")
 	symx.Reach("end")
 }
